@@ -21,11 +21,11 @@ BUDGET = {"quick": 900, "thorough": 3400}
 
 META = dict(
     rule="bounded grammar over an abstract config: 1-2 contexts x 1-2 streams x every subset of <=2 (thorough 3) entries "
-         "from an 8-entry menu (gross_range [list params], spike [scalars], climatology [nested list of dicts], location "
+         "from a 10-entry menu (gross_range [list params], spike [scalars], climatology [nested list of dicts], location "
          "[4-list + scalar], pressure_increasing [no parameters, spelt {} and null], valid_range [booleans], an unknown "
-         "test name, an unknown module) x window {absent, both bounds, starting only, ending only, both with 'ending' written first} x region {absent, GeoJSON "
+         "test name, an unknown module, a test name valid in argo but configured under qartod, and the same name under argo) x window {absent, both bounds, starting only, ending only, both with 'ending' written first} x region {absent, GeoJSON "
          "geometry, FeatureCollection}; each abstract config is rendered in every layout that can express it (contexts "
-         "list / single context / bare stream mapping / bare module mapping) and every carrier (dict, OrderedDict, YAML "
+         "list / single context / bare stream mapping / bare module mapping) and every carrier (dict, OrderedDict (each loaded twice from the same object), YAML "
          "text, JSON text, StringIO of both, str and Path to .yaml/.json files, xarray Dataset global attribute with "
          "YAML/JSON, Dataset per-variable attributes) and loaded by the real Config; Config.calls / .contexts / "
          "Call.config() must equal (also for three-context configs whose first and last context share a window, and for "
@@ -45,6 +45,8 @@ MENU = [
     ("axds", "valid_range_test", dict(valid_span=[0, 5], start_inclusive=False, end_inclusive=True), True),
     ("qartod", "not_a_test", dict(x=1), False),
     ("not_a_module", "some_test", dict(y=[1, 2]), False),
+    ("qartod", "speed_test", dict(suspect_threshold=1, fail_threshold=3), False),   # a real test name, but of another module
+    ("argo", "speed_test", dict(suspect_threshold=1, fail_threshold=3), True),
 ]
 WINDOWS = [None, dict(starting="2020-01-01T00:00:00", ending="2020-04-01T00:00:00"), dict(starting="2021-06-01T12:30:00"),
            dict(ending="2022-02-01T00:00:00"), dict(ending="2020-09-01T00:00:00", starting="2020-08-01T00:00:00")]  # ending only; ending written first
@@ -276,12 +278,18 @@ def check_case(case):
     src, cleanup = render(d, carrier)
     try:
         cfg = alpha.call(Config, src)
+        if carrier in ("dict", "odict", "xr_global_json", "xr_vars") and not isinstance(cfg, alpha.Raised):
+            # the same source OBJECT is loaded a second time: it must still mean the same
+            cfg2 = alpha.call(Config, src)
+            if isinstance(cfg2, alpha.Raised) or canon(observe(cfg2)) != canon(observe(cfg)):
+                cfg = cfg2 if isinstance(cfg2, alpha.Raised) else cfg2
+                case = dict(case, second_load=True)
     finally:
         if cleanup:
             cleanup()
     nt = not (layout == "contexts" and carrier == "dict")
     entries = sorted({MENU[e][1] for c in ast["contexts"] for es in c["streams"].values() for e in es})
-    shape_sig = f"layout={layout}|carrier={carrier}"
+    shape_sig = f"layout={layout}|carrier={carrier}" + ("|second-load-of-the-same-object" if case.get("second_load") else "")
     vs = []
     if isinstance(cfg, alpha.Raised):
         vs.append(V(f"{PROP}|{shape_sig}|symptom=raises:{cfg.name}", f"Config({carrier}) raised {cfg.name}: {cfg.msg}", canon(exp), repr(cfg)))
@@ -327,8 +335,8 @@ def replay(case):
     return check_case(case)[0]
 
 
-def subsets(kmax):
-    idx = range(len(MENU))
+def subsets(kmax, nmenu=None):
+    idx = range(nmenu or len(MENU))
     out = []
     for k in range(1, kmax + 1):
         out.extend(list(c) for c in itertools.combinations(idx, k))
@@ -338,7 +346,7 @@ def subsets(kmax):
 def asts(tier):
     kmax = 2 if tier == "quick" else 3
     subs = subsets(kmax)
-    singles = subsets(2)
+    singles = subsets(2, 8)   # the two-stream / windowed / multi-context products use the first 8 menu entries
     # one context, no window / region: one and two streams
     for a in subs:
         for null in ("null", "empty"):
@@ -348,6 +356,8 @@ def asts(tier):
     for a in singles:
         for b in singles:
             yield dict(contexts=[dict(window=0, region=0, streams={"v1": a, "v2": b})], null="null")
+    for a, b in (([8], [9]), ([9], [8]), ([8, 9], [0]), ([0], [8, 9]), ([8], [1, 9])):
+        yield dict(contexts=[dict(window=0, region=0, streams={"v1": a, "v2": b})], null="null")
     # one context with window / region
     for w in range(3):
         for r in range(3):
